@@ -1,6 +1,6 @@
 (* C38 -- the property theorems restated in plain Coq syntax (no MathComp notation in the
    statements); the proofs are in FdiffRefine.v (layer A) and FdiffMath.v (layer B). *)
-From SE Require Import C38.FdiffSpec C38.FdiffRefine C38.FdiffMath.
+From SE Require Import C38.FdiffSpec C38.FdiffRefine C38.FdiffMath C38.FdiffUniqMath.
 
 (* For any grid of distinct rational points (non-empty, index space within 32 bits), any
    centre and any maximum order, the weights returned for order k applied to the values of
@@ -82,3 +82,17 @@ Theorem fornberg_closed_form_plain :
         nth (Nat.add j (Nat.mul k (length grid))) w VNan
         = VQ (peval (pderivn k (lagrange grid j)) around).
 Proof. exact (@fornberg_closed_form). Qed.
+
+(* Uniqueness: candidate order-k weights [v] that are exact on every polynomial of degree below
+   the grid size are the returned ones. *)
+Theorem fornberg_unique_plain :
+  forall (grid : list Qc) (around : Qc) (max_deriv : N),
+    NoDup grid -> guard_size (length grid) max_deriv = true ->
+    exists w : list FdiffModel.val,
+      fdiff grid max_deriv around = Ok w /\
+      forall (k : nat) (v : nat -> Qc), le k (N.to_nat max_deriv) ->
+        (forall p : list Qc, le (length p) (length grid) ->
+           sumQc (fun j => Qcmult (v j) (peval p (nth j grid (Q2Qc 0)))) (length grid)
+           = peval (pderivn k p) around) ->
+        forall j : nat, lt j (length grid) -> v j = wq w (Nat.add j (Nat.mul k (length grid))).
+Proof. exact (@FdiffUniqMath.fornberg_unique). Qed.
